@@ -844,7 +844,7 @@ static int work(int argc, char **argv)
         std::string variant = argv[4];
         unsigned long long seed = vt::envSeed();
         if (variant == "small")
-            record<int>(argv[2], nops, seed, RecCfg{12, 0, 45, 3, 400, false, {16}});
+            record<Tagged>(argv[2], nops, seed, RecCfg{12, 0, 45, 3, 400, false, {16}});
         else if (variant == "mixed")
             record<Tagged>(argv[2], nops, seed + 1, RecCfg{40, 1000, 35, 5, 700, false, {16, 1024, 16384}});
         else if (variant == "nonrep")
@@ -855,7 +855,7 @@ static int work(int argc, char **argv)
             recordNonrep<int>(argv[2], nops, seed + 3);
         }
         else if (variant == "ctor")
-            record<int>(argv[2], nops, seed + 2, RecCfg{20, 64, 50, 4, 150, true, {8, 64, 4096}});
+            record<Tagged>(argv[2], nops, seed + 2, RecCfg{20, 64, 50, 4, 150, true, {8, 64, 4096}});
         else
         {
             fprintf(stderr, "unknown variant %s\n", variant.c_str());
